@@ -138,13 +138,15 @@ Definition is_repeat_with (cond : node) (body : list node) (prev : option node) 
   | Some (Stmt _ (Binary pn _ pl _)) =>
     String.eqb pn "assign" &&
     match cond with
-    | Binary _ _ cl _ =>
+    | Binary cn _ cl _ =>
       name_eq pl cl &&
       match rev body with
       | Stmt _ (Binary ln _ ll lr) :: _ =>
         String.eqb ln "assign" && name_eq pl ll &&
         match lr with
-        | Binary inc _ _ ir => name_eq ir ll && String.eqb inc "add"
+        | Binary inc _ il ir =>
+          name_eq ir ll && String.eqb inc "add" && is_const il &&
+          ((String.eqb cn "lte" && name_is il "1") || (String.eqb cn "gte" && name_is il "-1"))
         | _ => false
         end
       | _ => false
